@@ -86,11 +86,13 @@ class FallbackClient:
         return []
 
     def gets(self, key):
+        result = None
         for cache in self.caches:
             result = cache.gets(key)
-            if result is not None:
+            # Client.gets() reports a miss as (None, None) rather than None
+            if result is not None and result != (None, None):
                 return result
-        return None
+        return result
 
     def gets_many(self, keys):
         for cache in self.caches:
